@@ -7,7 +7,15 @@ package oauth
 //verif:outside the HTTP fetch and JWK decoding in refreshJWKS, signature verification in the JWT library
 
 import (
+	"bytes"
+	"crypto/ecdsa"
+	"crypto/elliptic"
+	"crypto/rand"
+	"encoding/base64"
+	"encoding/json"
 	"errors"
+	"io"
+	"net/http"
 	"time"
 
 	"github.com/golang-jwt/jwt/v5"
@@ -30,6 +38,30 @@ func c22Refresh(url string) error {
 	jwksCache.mu.Unlock()
 	c22Refreshed = true
 	return nil
+}
+
+// c22Provider is the native twin of the stand-in above: the real refreshJWKS
+// runs against a transport that answers with the published set as a real
+// JWKS document (or fails).
+type c22Provider struct{}
+
+func (c22Provider) RoundTrip(r *http.Request) (*http.Response, error) {
+	if c22RefreshFails {
+		return nil, errors.New("provider unreachable")
+	}
+	var doc jwksDocument
+	for _, e := range c22Published {
+		k, _ := ecdsa.GenerateKey(elliptic.P256(), rand.Reader)
+		size := (k.Curve.Params().BitSize + 7) / 8
+		x, y := make([]byte, size), make([]byte, size)
+		k.X.FillBytes(x)
+		k.Y.FillBytes(y)
+		doc.Keys = append(doc.Keys, jwkKey{Kid: e.Kid, Kty: "EC", Alg: "ES256", Use: "sig", Crv: "P-256",
+			X: base64.RawURLEncoding.EncodeToString(x), Y: base64.RawURLEncoding.EncodeToString(y)})
+	}
+	b, _ := json.Marshal(doc)
+	c22Refreshed = true
+	return &http.Response{StatusCode: 200, Status: "200 OK", Body: io.NopCloser(bytes.NewReader(b)), Header: http.Header{}, Request: r}, nil
 }
 
 func c22Kid(label string) string {
@@ -83,18 +115,24 @@ func VerifC22_onlyPublishedAsymmetricKeysAreSelected() {
 		missRefresh.mu.Unlock()
 		defer resetJWKSCache()
 		defer resetMissRefresh()
+		if !sym.Symbolic() {
+			saved := idpClient
+			idpClient = &http.Client{Transport: c22Provider{}}
+			defer func() { idpClient = saved }()
+		}
 
 		key, err := selectVerificationKey("http://127.0.0.1:1/jwks", &jwt.Token{Method: m, Header: header})
+		sym.Observe("selected", err == nil)
 		if err != nil {
 			sym.Reach("refused")
 			return
 		}
 		sym.Reach("selected")
 		sym.Assert(mi == 0 || mi == 1, "a verification key was handed out for a token whose alg is not ECDSA or RSA")
-		current := cached
-		if c22Refreshed {
-			current = c22Published
-		}
+		jwksCache.mu.RLock()
+		current := jwksCache.keys
+		jwksCache.mu.RUnlock()
+		sym.Assert(len(current) == len(map[bool][]publicKeyEntry{false: cached, true: c22Published}[c22Refreshed]), "the key cache does not hold the set that was last fetched")
 		var entry *publicKeyEntry
 		for i := range current {
 			if current[i].Key == key {
